@@ -223,6 +223,51 @@ func GenValue(r *hx.Rng, e *c08reg.Entry, depth int, allowBad bool) []byte {
 	return out
 }
 
+// GenBoundary encodes a value of the struct whose field number idx (a packed array, bytes or string field) has a payload of
+// exactly size bytes; two selects two-byte elements for packed integer arrays (size must then be even).
+func GenBoundary(r *hx.Rng, e *c08reg.Entry, idx, size int, two bool) []byte {
+	var out []byte
+	for i, f := range e.Fields {
+		if i != idx {
+			one := c08reg.Entry{Name: e.Name, New: e.New, Fields: []c08reg.Field{f}}
+			out = append(out, GenValue(r, &one, 3, false)...)
+			continue
+		}
+		var body []byte
+		switch f.Ty {
+		case "TBools":
+			for len(body) < size {
+				body = append(body, byte(r.Intn(2)))
+			}
+		case "TU32s", "TU64s":
+			for len(body) < size {
+				if two {
+					body = append(body, cx.Uvarint(uint64(128+r.Intn(16000)))...)
+				} else {
+					body = append(body, byte(r.Intn(128)))
+				}
+			}
+		case "TStr":
+			for len(body) < size {
+				body = append(body, byte('a'+r.Intn(26)))
+			}
+		default: // TBytes
+			body = r.Bytes(size)
+		}
+		out = append(out, lenPrefixed(f.Fn, body)...)
+	}
+	return out
+}
+
+// BoundaryKind reports whether GenBoundary applies to the field type.
+func BoundaryKind(ty string) bool {
+	switch ty {
+	case "TBools", "TU32s", "TU64s", "TStr", "TBytes":
+		return true
+	}
+	return false
+}
+
 // Entries returns all registered structs (name order).
 func Entries() []*c08reg.Entry {
 	out := make([]*c08reg.Entry, len(c08reg.Entries))
